@@ -60,8 +60,12 @@ OPS = ["call", "call", "call", "call", "assign", "assign", "copy", "copy_ro", "p
        "write_ro", "call_all", "copy_mutate"]
 
 
+# operations beyond calls / assignments / state.copy / pickle, generated for C09 only (extended=True)
+EXT_OPS = ["rebuild_B", "rebuild_B", "set_metric", "set_metric", "copy_copy", "deepcopy_state", "project"]
+
+
 @st.composite
-def history(draw, classes=None, max_dim=3, max_ops=30, same_class_pairs=True):
+def history(draw, classes=None, max_dim=3, max_ops=30, same_class_pairs=True, extended=False):
     spec = draw(zoo.system_spec(classes=classes or dyn.WEIGHTED_CLASSES, max_dim=max_dim, allow_down=True))
     n = spec["dim"]
     # second system object sharing the states: same class with different parameters, or another class
@@ -79,9 +83,25 @@ def history(draw, classes=None, max_dim=3, max_ops=30, same_class_pairs=True):
         specB = dict(spec, metric=draw(zoo.metric_spec(n, ["scaled", "diag", "dense", "chol_lower", "eig"])))
         b_from = draw(st.sampled_from(["copy", "deepcopy", "pickle"]))
     ops = []
+    pool_ops = OPS + EXT_OPS if extended else OPS
     for _ in range(draw(st.integers(3, max_ops))):
-        kind = draw(st.sampled_from(OPS))
+        kind = draw(st.sampled_from(pool_ops))
         op = {"op": kind, "i": draw(st.integers(0, 7)), "j": draw(st.integers(0, 63))}
+        if kind == "rebuild_B":
+            # the second system object is dropped and a NEW one of the same class with other parameters is constructed
+            # (a loop over models re-using one state): CPython may hand the new object the freed object's id
+            op["spec"] = draw(zoo.system_spec(classes=[specB["cls"]], min_dim=n, max_dim=n, allow_down=True))
+            if op["spec"]["dim"] != n:
+                continue
+            ops.append(op)
+            ops.append({"op": "call_all", "i": op["i"], "j": 0, "sys": "B"})
+            continue
+        if kind == "set_metric":
+            op["sys"] = draw(st.sampled_from(["A", "B"]))
+            op["metric"] = draw(zoo.metric_spec(n, ["scaled", "diag", "dense", "chol_lower", "eig", "identity"]))
+            ops.append(op)
+            ops.append({"op": "call_all", "i": op["i"], "j": 0, "sys": op["sys"]})
+            continue
         if kind in ("call", "call_all"):
             op["sys"] = draw(st.sampled_from(["A", "A", "B"]))
         elif kind == "assign":
